@@ -56,6 +56,11 @@ def main(argv):
     mod = importlib.import_module(f"harness.checks.{prop.lower()}")
 
     # ---- 1. Lean: build, forbidden tokens, axiom audit -------------------------------------
+    # every table that is generated from /repo's source is regenerated on every run of every check (each file is
+    # rewritten only when its content changes), so that a stale table can never linger in the tree
+    from harness import extract_tables as E
+    for gen in (E.gen_c01, E.gen_c12, E.gen_c16):
+        gen()
     pre = getattr(mod, "pre_build", None)
     if pre:
         pre(ctx)                      # e.g. regenerate tables from /repo
